@@ -275,15 +275,16 @@ void run_maps() {
 // Growth of the sparse mmap/file vectors: more than 2^20 entries so that mmap_vector_base::reserve()/resize() has to
 // grow the mapping (mremap for anonymous, munmap+ftruncate+mmap for file backed vectors) while entries are appended.
 // The model is a formula (id = k*stride + offset <-> inserted), probes are sampled.
-void run_growth() {
+void run_growth(bool flex_big = false) {
     const FdCleanup fd_cleanup;
     simfs::reset();
     static const char* types[] = {"sparse_mmap_array", "sparse_file_array", "dense_mmap_array", "dense_file_array"};
-    const std::string t = types[choose(S_CONF, 4)];
+    const std::string t = flex_big ? std::string{"flex_mem"} : std::string{types[choose(S_CONF, 4)]};
     const bool dense = is_dense(t);
-    const id_type stride = dense ? 1 + choose(S_WORK, 2) : 1 + choose(S_WORK, 5);
+    const id_type stride = flex_big ? 1 + choose(S_WORK, 2) : (dense ? 1 + choose(S_WORK, 2) : 1 + choose(S_WORK, 5));
     const id_type offset = choose(S_WORK, 7);
-    const id_type n = (1ULL << 20) + 1 + choose(S_WORK, dense ? 1200000 : 300000);
+    // flex_big: the shipped threshold of FlexMem's automatic sparse->dense switch (0xffffff entries) is crossed
+    const id_type n = flex_big ? (1ULL << 24) + 1 + choose(S_WORK, 5000) : (1ULL << 20) + 1 + choose(S_WORK, dense ? 1200000 : 300000);
     const uint32_t order = choose(S_WORK, 3); // 0 ascending, 1 descending, 2 two interleaved halves
     const uint32_t salt = choose(S_WORK, 1000);
     const bool move_always = choose(S_CONF, 3) != 0;
@@ -323,7 +324,8 @@ void run_growth() {
         if (!diff.empty()) {
             sim::report("oracle", "C12.growth/" + t + "/lookup-differs-from-model", t + " with " + std::to_string(n) + " entries (stride " + std::to_string(stride) + ", order " + std::to_string(order) + "): " + diff);
         }
-        if (m->size() != n && !dense) {
+        if (flex_big) { sim::probe("FlexMem filled with more than 2^24 entries (shipped sparse->dense switch threshold)"); }
+        if (m->size() != n && !dense && !flex_big) {
             sim::report("oracle", "C12.growth/" + t + "/size", t + " reports size " + std::to_string(m->size()) + " after " + std::to_string(n) + " insertions");
         }
         sim::probe("sparse or dense mmap/file vector grew beyond 2^20 entries while filling");
@@ -463,6 +465,7 @@ int main(int argc, char** argv) {
         if (info.mode == "maps") { run_maps(); }
         else if (info.mode == "nospace") { run_nospace(); }
         else if (info.mode == "growth") { run_growth(); }
+        else if (info.mode == "flexbig") { run_growth(true); }
         else if (info.mode == "handler") { run_handler(); }
         else { sim::report("harness-error", "harness/unknown-mode", info.mode); }
     });
